@@ -308,6 +308,7 @@ class Interp:
         self.paths = 0
         self.seq = 0
         self.depth = 0
+        self.summaries: dict = {}  # (target, args tuple) -> AV : callee results established by the caller of the analysis
         self.loops: dict[int, list] = {}  # id(For node) -> [(iterable AV, element AV, entry State clone)]
 
     # ------------------------------------------------------------------ public API
@@ -883,10 +884,8 @@ class Interp:
         if isinstance(v, Const):
             return bool(v.v)
         if isinstance(v, ListV):
-            if v.items and not v.open:
-                return True
-            if not v.items:
-                return False
+            if not v.open:
+                return bool(v.items)
             if v.nonempty:
                 return True
             return None
@@ -1186,6 +1185,8 @@ class Interp:
                     for it in rv.items:
                         if isinstance(it, (Const, EnumM)):
                             st.neq.setdefault(repr(lv), set()).add(it)
+                elif truth and isinstance(lv, (Sym, App)) and rv.items and all(isinstance(i, (Const, EnumM)) for i in rv.items):
+                    st.eq[repr(lv)] = rv.items[0] if len(rv.items) == 1 else Alt(frozenset(rv.items))
             return res
         if isinstance(rv, DictV):
             keys = [k for k, _ in rv.items]
@@ -1566,6 +1567,9 @@ class Interp:
 
     def call(self, e: ast.Call, fname: str | None, recv: AV | None, args: tuple, kws: tuple, s: State):
         line = e.lineno
+        if fname and not kws and (fname, args) in self.summaries:
+            self.effect(s, "call", fname, args, kws, e)
+            return [(self.summaries[(fname, args)], s)]
         # ---- builtins with abstract semantics
         if isinstance(e.func, ast.Name):
             n = e.func.id
